@@ -1371,8 +1371,10 @@ class DiameterMessage:
 
         avp = self.__dict__[avp_key]
 
-        #: Updates DiameterMessage attributes.
-        self._avps.remove(avp)
+        #: Updates DiameterMessage attributes. The AVP is looked up by identity:
+        #: list.remove() compares by value and would drop the first of two
+        #: AVPs holding equal data instead of the one the key refers to.
+        self._avps.pop(self._lookup_avp_index(avp))
         self.__dict__.pop(avp_key, None)
 
         #: It updates the DiameterMessage object length attribute with the 
